@@ -259,6 +259,28 @@ def asof_scenario(rng, quick):
     return ops
 
 
+def asof_prose(rng, quick):
+    """The same question on plain one-sentence notes (a dozen words each, nothing else in the text): twelve about a garden, then
+    two - the only ones - about a zeppelin.  The model sees the query as the atom w9; the real query is the word itself."""
+    topics = ["tomato", "carrot", "lettuce", "fennel", "radish", "spinach", "potato", "onion", "garlic", "celery", "parsnip", "turnip"]
+    texts = ["Garden notebook entry: the %s seedlings were watered and weeded today" % t for t in topics]
+    texts += ["Aviation history: the zeppelin airship crossed the ocean in three days", "Museum visit: a restored zeppelin gondola is on display in the main hall"]
+    ops = [{"op": "create"}]
+    for i, t in enumerate(texts):
+        ops.append({"op": "put", "uri": "mv2://n/%d" % i, "pay": i + 1, "cls": "raw", "text": t, "ts": 1700000000 + i * 1000,
+                    "atoms": ["w9"] if i >= 12 else ["w1"]})
+    ops.append({"op": "commit"})
+    qs = []
+    for ns in (False, True):
+        for cut in (11, 10, 3):
+            qs.append({"op": "search", "toks": ["w9"], "q": "zeppelin", "top_k": 10, "as_of_frame": cut, "with_base": True, "no_sketch": ns})
+        for t in (1700000000 + 11 * 1000, 1700000000 + 11 * 1000 + 500, 1700000000 + 2000):
+            qs.append({"op": "search", "toks": ["w9"], "q": "zeppelin", "top_k": 10, "as_of_ts": t, "with_base": True, "no_sketch": ns})
+        qs.append({"op": "search", "toks": ["w9"], "q": "zeppelin", "top_k": 10, "as_of_frame": 12, "with_base": True, "no_sketch": ns})
+    ops += qs + [{"op": "close"}, {"op": "open"}] + [dict(q) for q in qs] + [{"op": "close"}]
+    return ops
+
+
 def pagination_small(rng, quick):
     """C16 where nothing as built excuses a difference: fewer matching documents than the smallest candidate window (20), some
     of them with two snippet slices, timestamps days apart and not in insertion order, every page size from 1 to 10."""
@@ -314,6 +336,7 @@ def engine(tier):
     scs.append({"id": 2, "ops": recall_scenario(rng, 130 if quick else 190, quick)})
     scs.append({"id": 3, "ops": pagination_small(rng, quick)})
     scs.append({"id": 4, "ops": asof_scenario(rng, quick)})
+    scs.append({"id": 5, "ops": asof_prose(rng, quick)})
     sizes = [6, 14, 30] if quick else [4, 8, 14, 24, 40, 60, 90, 120] * 3
     for n in sizes:
         scs.append({"id": len(scs) + 1, "ops": scenario(rng, quick, n)})
